@@ -64,11 +64,11 @@ Definition model_build (d : disk) (o : nat) (b : bspec) : disk * bool :=
   | Hit _ => (d1, true)
   | NeedsRebuild =>
       match b_crash b with
-      | CrashRebuild k => (run_prog d1 (open_tar (b_pdir b) (a_dath a)) (Some k), false)
-      | _ => (run_prog d1 (open_tar (b_pdir b) (a_dath a)) None, true)
+      | CrashRebuild k => (run_prog d1 (open_tar (S o) (b_pdir b) (a_dath a)) (Some k), false)
+      | _ => (run_prog d1 (open_tar (S o) (b_pdir b) (a_dath a)) None, true)
       end
   | Miss =>
-      let prog := populate_package (S o) (b_pdir b) a ++ open_tar (b_pdir b) (a_dath a) in
+      let prog := populate_package (S o) (b_pdir b) a in
       match b_crash b with
       | CrashPkg k => (run_prog d1 prog (Some k), false)
       | _ => (run_prog d1 prog None, true)
